@@ -274,7 +274,7 @@ HEADER = """(* GENERATED by harness/gen_generated.py from %s -- do not edit; rew
 From Coq Require Import List NArith.
 From Conductor Require Import Lib.Regex Lib.PyRegex Lib.SchemaTypes.
 Import ListNotations.
-Open Scope N_scope.
+Local Open Scope N_scope.
 
 """
 
